@@ -2,6 +2,7 @@ SPECIFICATION MSpec
 CONSTANTS
   MSessions = {"s1","s2"}
   MStreams = {"t1","t2"}
+  MIters = {"k1","k2"}
   MDefaultMax = 10485760
 CONSTRAINT MMark
 POSTCONDITION MAccepted
